@@ -131,12 +131,16 @@ def h_dest(ctx, mode, prefix, how):
         ctx.prop("status_discarded", fin[0][4] == FileStatus.DISCARDED_DELIBERATELY)
 
 
-def h_src(ctx, mode, prefix, how):
+def h_src(ctx, mode, prefix, how, nofile=False):
     from vf.harness.c10 import SRC_PREFIXES
     w = World(ctx)
     mode = ACK if mode == "ack" else UNACK
     sc = hsrc.SrcScenario(ctx, w, mode=mode, closure=bool(ctx.choice("closure", 2)), M=3)
-    o = sc.put()
+    if nofile:
+        from spacepackets.cfdp import MessageToUserTlv
+        o = sc.put(src=None, dst=None, msgs=[MessageToUserTlv(b"hello")])  # metadata-only request
+    else:
+        o = sc.put()
     busy_before_start = True
     o = sc.sm()
     hsrc.end_if_other_property(ctx, o)
@@ -176,7 +180,8 @@ def h_src(ctx, mode, prefix, how):
     e = pdus[0]
     ctx.prop("cancel_eof_size_is_bytes_sent", sand(e.file_size == sent, e.file_size == progress),
              lambda: {"sig": "EOF(cancel) size differs from the file data sent"})
-    ctx.prop("cancel_eof_checksum_covers_prefix", e.file_checksum == w.checksum(ChecksumType.CRC_32, sent),
+    ctx.prop("cancel_eof_checksum_covers_prefix",
+             e.file_checksum == (bytes(4) if nofile else w.checksum(ChecksumType.CRC_32, sent)),
              lambda: {"sig": "EOF(cancel) checksum is not that of the prefix sent"})
     ctx.prop("no_new_file_data_after_cancel", not any(pdu_kind(p) == "FD" for p in pdus),
              lambda: {"sig": "File Data emitted after the cancel"})
@@ -207,6 +212,10 @@ def plan(tier):
             for how in ("own", "other"):
                 specs.append(Spec(f"src/{mode}/{pre}/{how}", "vf.harness.c12:h_src",
                                   {"mode": mode, "prefix": pre, "how": how}, twin_share=0.2))
+        for pre in ("md", "sm1"):
+            specs.append(Spec(f"src/{mode}/metadata-only/{pre}/own", "vf.harness.c12:h_src",
+                              {"mode": mode, "prefix": pre, "how": "own", "nofile": True}, twin_share=0.2,
+                              obligations=["cancelled"] if (pre == "md" or mode == "ack") else []))
     return specs
 
 
